@@ -200,6 +200,20 @@ def wrap_link_exts(rng, et, body):
     return et, body, tag
 
 
+BIG_ONE_IN = 250
+
+
+def big_trail(rng, data):
+    """data followed by filler up to a total of m*65536 + r bytes, r small (so that
+    (total - header offset) mod 2^16 is small for the usual header offsets)"""
+    m = rng.choice([1, 1, 1, 2])
+    r = rng.below(len(data) + 64)
+    total = m * 65536 + r
+    block = rng.bytes(64)
+    fill = total - len(data)
+    return data + (block * (fill // 64 + 1))[:fill]
+
+
 def gen_packet(rng):
     k = rng.below(20)
     if k == 0:   # pure noise, biased first bytes
@@ -228,6 +242,10 @@ def gen_packet(rng):
             hw = rng.choice([1, 1, 1, 1, 824, 778, 803, 770, 2, rng.below(65536)])
             proto = et2 if rng.chance(5, 6) else rng.choice([1, 4, 9, 10, 0x1C, 0xF5, 0xFA, 0xFB, 0])
             ent, data, stag = "sll", be16(pt) + be16(hw) + rng.bytes(10) + be16(proto) + body2, "sll:" + ltag + ":" + tag
+    # rarely: the packet sits at the start of a large buffer (capture ring): the bytes
+    # behind it push every 'available length' past 2^16 / 2^17, with the value mod 2^16 small
+    if len(data) > 0 and rng.below(BIG_ONE_IN) == 0:
+        return ent, big_trail(rng, data), stag + "|big"
     # damage
     d = rng.below(10)
     if d < 3 and len(data) > 0:
